@@ -1,14 +1,15 @@
 (* C10 - Row-level delete removes exactly the rows the predicate selects.
    Only property statements live here; proofs are in Proofs.v.
-   [KeepNotPred] is internal/api/delete.go as it is (the rewrite keeps WHERE NOT (p));
-   [KeepIsNotTrue] is the proposed repair (fixes/C10_delete_is_not_true.patch: WHERE (p) IS NOT TRUE);
-   the check determines on every run which of the two the current source implements. *)
+   [KeepIsNotTrue] is internal/api/delete.go as it is now (WHERE (p) IS NOT TRUE, /repo 33a2304 =
+   fixes/C10_delete_is_not_true.patch); [KeepNotPred] is the previous code (WHERE NOT (p)), kept as the
+   record of the fixed finding.  The check determines on every run which of the two the source
+   implements; a revert shows up as a VIOLATION. *)
 From Coq Require Import List ZArith NArith Bool Lia.
 From Arc Require Import Sql3VL.Model Sql3VL.Proofs.
 Import ListNotations.
 Open Scope Z_scope.
 
-(* The full statement, for the repaired rewrite: for EVERY dataset (any number of files, any rows,
+(* The full statement, for the current rewrite: for EVERY dataset (any number of files, any rows,
    any NULLs), EVERY predicate of the grammar, every configuration: after a confirmed delete that
    reports success, the rows of the measurement are exactly the previous rows for which the
    predicate is not TRUE (FALSE and NULL rows stay, in order), the reported count is the number of
@@ -22,7 +23,7 @@ Theorem C10_exact : forall cf rq ds rsp ds',
 Proof. exact delete_exact_repaired. Qed.
 Print Assumptions C10_exact.
 
-(* The code as it is violates it: one file with x = NULL, 1, 2 and the predicate x = 1.
+(* The previous code (before 33a2304) violated it: one file with x = NULL, 1, 2 and the predicate x = 1.
    NOT (x = 1) is NULL on the first row, so the rewrite drops it together with the matching row. *)
 Definition w_rows : list row := [[VNum 4; VNull]; [VNum 8; VNum 4]; [VNum 12; VNum 8]].   (* (id, x) *)
 Definition w_ds : dataset := [(1%N, w_rows)].
@@ -45,7 +46,7 @@ Proof.
 Qed.
 Print Assumptions C10_exact_refuted.
 
-(* Strongest true statement about the code as it is: exact whenever no row of an affected file
+(* Strongest true statement about the previous code: exact whenever no row of an affected file
    evaluates to NULL. *)
 Theorem C10_exact_guarded : forall cf rq ds rsp ds',
   rq_class rq = WValid -> rq_dry rq = false ->
@@ -92,7 +93,7 @@ Theorem C10_rejected_unchanged : forall v cf rq ds rsp ds',
 Proof. intros v cf rq ds rsp ds' H Hs. eapply delete_run_unchanged_unless_ok; [exact H|left; exact Hs]. Qed.
 Print Assumptions C10_rejected_unchanged.
 
-(* Dry run and real run of the same confirmed request agree on status and count - repaired rewrite. *)
+(* Dry run and real run of the same confirmed request agree on status and count (current rewrite). *)
 Theorem C10_same_count : forall cf rq ds,
   rq_class rq = WValid -> rq_confirm rq = true ->
   let rd := fst (delete_run KeepIsNotTrue cf (with_dry rq true) ds) in
@@ -103,7 +104,7 @@ Proof.
 Qed.
 Print Assumptions C10_same_count.
 
-(* ... refuted for the code as it is (dry run says 1, the real run deletes 2) ... *)
+(* ... refuted for the previous code (dry run says 1, the real run deletes 2) ... *)
 Theorem C10_same_count_refuted :
   exists cf rq ds,
     rq_class rq = WValid /\ rq_confirm rq = true /\
